@@ -29,6 +29,11 @@ class C11(SessionCheck):
         for i in range(2 if tier == 'quick' else 20):
             out.append({'kind': 'e2e', 'sc': {'transport': ['unix', 'ssh'][i % 2], 'profile': 'default', 'threads': 1, 'per_thread': 1, 'window': 1,
                                               'notifs': 0, 'notifs_then_close': 3, 'seg': 'whole', 'seed': rng.randrange(1 << 30), 'after_close': True}})
+        for i in range(1 if tier == 'quick' else 4):
+            # a large backlog of untaken notifications, then requests: the queue must not push back on the session thread
+            out.append({'kind': 'e2e', 'sc': {'transport': 'unix', 'profile': ['default', 'junos'][i % 2], 'threads': 1, 'per_thread': 2, 'window': 1,
+                                              'notifs': 0, 'burst': 1500 if tier == 'quick' else 1500 * 4 ** i, 'seg': 'whole', 'timeout': 4,
+                                              'seed': rng.randrange(1 << 30)}})
         return out
 
     def oracle(self, case, io):
